@@ -126,7 +126,7 @@ impl Prop for C19 {
         "case = every tree (parse-stage and validated) of a generated project or of a stand-alone generated document with annotations / doc comments / values: ron::to_string and to_string_pretty -> ron::from_str::<ast::Aidl> -> == original (a RON error is a failure); serde_json is run alongside. Non-trivial = tree with a oneway method, an annotation with parameters, a doc, or a resolved kind; distinct by text.".into()
     }
     fn random_cases(&self, tier: Tier) -> u64 {
-        tier.pick(6_000, 200_000)
+        tier.pick(20_000, 200_000)
     }
     fn max_bytes(&self) -> usize {
         3000
